@@ -126,9 +126,9 @@ func PeriodDetectFast(source io.Reader) (bool, error) {
 	s := 20
 	t := Threshold(s)
 	n := 20000 / 8
-	counters := make([]int32, 15)
-	distributions := createDistributions(s, 15)
-	jobs, wg := bootWorker(Round15, counters, distributions)
+	counters := make([]int32, 12)
+	distributions := createDistributions(s, 12)
+	jobs, wg := bootWorker(Round12, counters, distributions)
 	defer close(jobs)
 	err := dispatch(source, n, s, jobs, wg)
 	wg.Wait()
